@@ -390,7 +390,17 @@ class World:
             case ["attach", n]:
                 r = self.pool[n]
                 self.attach_count += 1
-                payload = iteration.RowSequence(list(self.rows_of(r)))
+                from lsst.daf.relation import MarkerRelation
+
+                if not isinstance(r, MarkerRelation) or r.payload is not None:
+                    r.attach_payload(object())  # must raise TypeError; nothing is evaluated
+                    return "ok attached-although-not-an-empty-marker"
+                rows = self.rows_of(r)
+                if isinstance(r.engine, sql.Engine):
+                    cols = sorted(r.columns, key=str)
+                    payload = self.sqlw.make_table(r.engine, self.sqlw.fresh_name("att"), cols, rows)
+                else:
+                    payload = iteration.RowSequence(rows)
                 r.attach_payload(payload)
                 return "ok attached"
             case ["process", n, tn]:
